@@ -138,16 +138,55 @@ fn pool_tests(t: &mut T) {
         r.events.insert(p + 1, e);
     }), Some("spawn_conservation"));
     t.expect("pool/worker_count_differs", &tamper(&|_, o| o.aux_counts[1] = 3), Some("spawn_conservation"));
-    t.expect("pool/worker_touches_countdown_after_zero", &tamper(&|r, _| {
-        let z = pos(r, |e| e.tid != 0 && matches!(e.kind, Ev::Atomic { op: AtomOp::Rmw, new: 0, .. }));
-        let (obj, addr) = match r.events[z].kind {
-            Ev::Atomic { obj, addr, .. } => (obj, addr),
-            _ => unreachable!(),
+    // Frame liveness is judged while a run proceeds: drive the monitor with
+    // a synthetic sequence of events and touches.
+    {
+        use dsim::Monitor;
+        let mk = |tid: u8, kind: Ev| Event { seq: 0, tid, vt: 0, kind, vc: dsim::vclock::VClock::ZERO, unwinding: false };
+        let verdict = |touch_tid: usize, addr: usize, setup: &dyn Fn(&pool::FrameLiveness)| -> Vec<crate::common::Violation> {
+            let m = pool::FrameLiveness::default();
+            setup(&m);
+            m.pre_touch(touch_tid, addr).map(|msg| crate::batch::invariant_violation(&msg)).into_iter().collect()
         };
-        let mut e = r.events[z];
-        e.kind = Ev::Atomic { obj, addr, op: AtomOp::Load, ord: Ord8::Relaxed, old: 0, new: 0 };
-        r.events.insert(z + 1, e);
-    }), Some("touch_after_release"));
+        let top = 0x7000_0000usize;
+        let base = |m: &pool::FrameLiveness, ret: bool| {
+            m.on_event(&mk(0, Ev::Spawn { child: 1 }));
+            m.on_event(&mk(0, Ev::User(UserEv::BroadcastBegin { j: 0, n: 1 })));
+            m.set_frame(0, top);
+            m.on_event(&mk(1, Ev::User(UserEv::TaskBegin { j: 0, i: 1 })));
+            m.on_event(&mk(1, Ev::User(UserEv::TaskEnd { j: 0, i: 1 })));
+            m.on_event(&mk(0, Ev::User(UserEv::TaskBegin { j: 0, i: 0 })));
+            m.on_event(&mk(0, Ev::User(UserEv::TaskEnd { j: 0, i: 0 })));
+            if ret {
+                m.on_event(&mk(0, Ev::User(UserEv::BroadcastReturn { j: 0 })));
+            }
+        };
+        t.expect("pool/monitor_stale_touch_after_return", &verdict(1, top - 200, &|m| base(m, true)), Some("touch_after_release"));
+        t.expect("pool/monitor_touch_before_return", &verdict(1, top - 200, &|m| base(m, false)), None);
+        t.expect("pool/monitor_touch_elsewhere", &verdict(1, top + (1 << 20), &|m| base(m, true)), None);
+        t.expect("pool/monitor_owner_touches_own_stack", &verdict(0, top - 200, &|m| base(m, true)), None);
+        t.expect("pool/monitor_thread_created_later", &verdict(2, top - 200, &|m| {
+            base(m, true);
+            m.on_event(&mk(0, Ev::Spawn { child: 2 }));
+        }), None);
+        t.expect("pool/monitor_next_broadcast_in_progress", &verdict(1, top - 200, &|m| {
+            base(m, true);
+            m.on_event(&mk(0, Ev::User(UserEv::BroadcastBegin { j: 1, n: 1 })));
+            m.set_frame(1, top);
+        }), None);
+        let early = {
+            let m = pool::FrameLiveness::default();
+            m.on_event(&mk(0, Ev::Spawn { child: 1 }));
+            m.on_event(&mk(0, Ev::User(UserEv::BroadcastBegin { j: 0, n: 1 })));
+            m.on_event(&mk(0, Ev::User(UserEv::TaskBegin { j: 0, i: 0 })));
+            m.on_event(&mk(0, Ev::User(UserEv::TaskEnd { j: 0, i: 0 })));
+            m.on_event(&mk(0, Ev::User(UserEv::BroadcastReturn { j: 0 })))
+                .map(|msg| crate::batch::invariant_violation(&msg))
+                .into_iter()
+                .collect::<Vec<_>>()
+        };
+        t.expect("pool/monitor_returned_early", &early, Some("returned_early"));
+    }
     t.expect("pool/index_out_of_range", &tamper(&|r, _| {
         let p = pos(r, is_begin(0, 2));
         r.events[p].kind = Ev::User(UserEv::TaskBegin { j: 0, i: 9 });
